@@ -1184,7 +1184,11 @@ int uv_shutdown(uv_shutdown_t* req, uv_stream_t* stream, uv_shutdown_cb cb) {
   stream->shutdown_req = req;
   stream->flags &= ~UV_HANDLE_WRITABLE;
 
-  if (uv__queue_empty(&stream->write_queue))
+  /* While a connect is pending the request waits for it, like writes do:
+   * waking the watcher now would make uv__stream_connect() read SO_ERROR == 0
+   * from a socket that is still connecting and report success too early.
+   */
+  if (stream->connect_req == NULL && uv__queue_empty(&stream->write_queue))
     uv__io_feed(stream->loop, &stream->io_watcher);
 
   return 0;
